@@ -1002,16 +1002,22 @@ theorem methodsOk_self (want : List WantMethod) (got : List MethodS) (hl : got.l
 
 theorem codesOk_self (dc : Bool) (want : List WantCode) (got : List CodeS) (hl : got.length = want.length)
     (hn : got.map (·.name) = want.map (·.name))
-    (h : ∀ x ∈ List.zip want got, membersOk "code-field" dc x.1.fields x.2.fields ++ membersOk "code-ctor" false x.1.ctor x.2.ctor = []) :
+    (h : ∀ x ∈ List.zip want got, codeOk dc x.1 x.2 = []) :
     codesOk dc want got = [] := by
-  have := zipWith_all_nil (fun (w : WantCode) (g : CodeS) => membersOk "code-field" dc w.fields g.fields ++ membersOk "code-ctor" false w.ctor g.ctor) want got h
+  have := zipWith_all_nil (codeOk dc) want got h
   simp [codesOk, hl, hn, this]
 
+theorem codeOk_self (dc : Bool) (w : WantCode) (g : CodeS) (hf : membersOk "code-field" dc w.fields g.fields = [])
+    (hc : membersOk "code-ctor" false w.ctor g.ctor = []) (hfm : g.fmods = w.fmods) (hmeth : methodsOk w.methods g.methods = []) :
+    codeOk dc w g = [] := by
+  simp [codeOk, hf, hc, hfm, hmeth]
+
 theorem declOk_self (w : WantDecl) (g : DeclS) (hk : g.kind = w.kind) (hn : g.name = w.name) (hs : g.scope = w.scope) (hm : g.mods = w.mods)
+    (hfm : g.fmods = w.fmods)
     (hf : membersOk "field" w.constFields w.fields g.fields = []) (hc : membersOk "ctor" false w.ctor g.ctor = [])
     (hmeth : methodsOk w.methods g.methods = []) (hi : itemsOk w.items g.items = [])
     (hcodes : codesOk w.constFields w.codes g.codes = []) : declOk w g = [] := by
-  simp [declOk, hk, hn, hs, hm, hf, hc, hmeth, hi, hcodes]
+  simp [declOk, hk, hn, hs, hm, hfm, hf, hc, hmeth, hi, hcodes]
 
 theorem membersOk_nil (label : String) (dc : Bool) : membersOk label dc [] [] = [] := by simp [membersOk]
 theorem methodsOk_nil : methodsOk [] [] = [] := by simp [methodsOk]
@@ -1116,7 +1122,7 @@ theorem cpp_api_fidelity (c : Cfg) (d : Decl) (h : cppTypesOk d) : fidelity .cpp
       · intro x hx
         obtain ⟨k, hmem, rfl⟩ := mem_zip_map _ _ codes x hx
         have hk := h k hmem
-        simp [cppCode, cppWantCode, cpp_params_ok c.cpp "code-field" true k.params hk, cpp_params_ok c.cpp "code-ctor" false k.params hk]
+        simp [codeOk, methodsOk_nil, cppCode, cppWantCode, cpp_params_ok c.cpp "code-field" true k.params hk, cpp_params_ok c.cpp "code-ctor" false k.params hk]
     apply declOk_self <;> simp [wantCpp, cppSkel, cppDeclName_eq, DeclS.empty, Decl.info, membersOk_nil, methodsOk_nil, itemsOk_self, hk]
 
 /-- **api_members_in_order (C++)** — a record exposes its fields in declaration order under their converted names
@@ -1221,7 +1227,7 @@ theorem cli_api_fidelity (c : Cfg) (d : Decl) (h : cliTypesOk d) : fidelity .cpp
         have hk := h k hmem
         obtain ⟨_, _, hf⟩ := cli_members_ok c.cli "code-field" false k.params hk
         obtain ⟨_, hc, _⟩ := cli_members_ok c.cli "code-ctor" false k.params hk
-        simp [cliCode, cliWantCode, hf, hc]
+        simp [codeOk, methodsOk_nil, cliCode, cliWantCode, hf, hc]
     apply declOk_self <;> simp [wantCli, cliSkel, cliDeclName_eq, DeclS.empty, Decl.info, membersOk_nil, methodsOk_nil, itemsOk_self, hk]
 
 
@@ -1244,6 +1250,19 @@ theorem java_members_ok (c : JavaCfg) (hc : JavaDom c) (label : String) (dc : Bo
     have := fieldsAll_mem h f hf
     simp only [Bool.and_eq_true] at this
     simp [javaMember, javaWantMember, javaDataType_eq_ref_partial c hc.pkg hc.noAnn f.ty false this.1 this.2]
+
+/-- the getters written for a list of fields (record fields, error-code parameters) are the getters the specification expects -/
+theorem java_getters_ok (c : JavaCfg) (hc : JavaDom c) (fs : List FieldD)
+    (h : fieldsAll (fun t => t.builtinsAll Builtin.javaOK && t.genericsOk) fs = true) :
+    methodsOk (fs.map (javaWantGetter c)) (fs.map (javaGetter c)) = [] := by
+  apply methodsOk_self
+  · simp
+  · simp [List.map_map, Function.comp_def, javaGetter, javaWantGetter]
+  · intro x hx
+    obtain ⟨f, hmem, rfl⟩ := mem_zip_map _ _ fs x hx
+    have := fieldsAll_mem h f hmem
+    simp only [Bool.and_eq_true] at this
+    simp [methodOk, javaGetter, javaWantGetter, membersOk_nil, javaDataType_eq_ref_partial c hc.pkg hc.noAnn f.ty false this.1 this.2]
 
 theorem javaReturnType_eq_ref (c : JavaCfg) (hc : JavaDom c) (t : Option RType) (async : Bool)
     (h : ∀ r, t = some r → r.builtinsAll Builtin.javaOK = true ∧ r.genericsOk = true) :
@@ -1288,16 +1307,8 @@ theorem java_api_fidelity_partial (c : Cfg) (hc : JavaDom c.java) (d : Decl) (hw
     simp only [javaTypesOk, Decl.typesAll] at h
     have hf := java_members_ok c.java hc "field" false fields h
     have hct := java_members_ok c.java hc "ctor" false fields h
-    have hg : methodsOk (fields.map (javaWantGetter c.java)) (fields.map (javaGetter c.java)) = [] := by
-      apply methodsOk_self
-      · simp
-      · simp [List.map_map, Function.comp_def, javaGetter, javaWantGetter]
-      · intro x hx
-        obtain ⟨f, hmem, rfl⟩ := mem_zip_map _ _ fields x hx
-        have := fieldsAll_mem h f hmem
-        simp only [Bool.and_eq_true] at this
-        simp [methodOk, javaGetter, javaWantGetter, membersOk_nil, javaDataType_eq_ref_partial c.java hc.pkg hc.noAnn f.ty false this.1 this.2]
-    apply declOk_self <;> simp [wantJava, javaSkel, DeclS.empty, Decl.info, codesOk_nil, itemsOk_self, hf, hct, hg] <;> first | (simpa [Decl.info] using hname) | skip
+    have hg := java_getters_ok c.java hc fields h
+    apply declOk_self <;> simp [wantJava, javaSkel, DeclS.empty, Decl.info, codesOk_nil, itemsOk_self, hf, hct, hg, javaFieldMod, javaWantFieldMod] <;> first | (simpa [Decl.info] using hname) | skip
   | interface u ms =>
     simp only [javaTypesOk, Decl.typesAll, List.all_eq_true, Bool.and_eq_true] at h
     have hm : methodsOk (ms.map (javaWantMethod c.java)) (ms.map (javaMethod c.java)) = [] := by
@@ -1329,7 +1340,9 @@ theorem java_api_fidelity_partial (c : Cfg) (hc : JavaDom c.java) (d : Decl) (hw
       · intro x hx
         obtain ⟨k, hmem, rfl⟩ := mem_zip_map _ _ codes x hx
         have hk := h k hmem
-        simp [javaCode, javaWantCode, java_members_ok c.java hc "code-field" false k.params hk, java_members_ok c.java hc "code-ctor" false k.params hk]
+        apply codeOk_self <;>
+          simp [javaCode, javaWantCode, javaFieldMod, javaWantFieldMod, java_members_ok c.java hc "code-field" false k.params hk,
+            java_members_ok c.java hc "code-ctor" false k.params hk, java_getters_ok c.java hc k.params hk]
     apply declOk_self <;> simp [wantJava, javaSkel, DeclS.empty, Decl.info, membersOk_nil, methodsOk_nil, itemsOk_self, hk] <;> first | (simpa [Decl.info] using hname) | skip
 
 
